@@ -32,6 +32,10 @@ def build_term(spec, idx):
             o = KroneckerDelta(*t)
         elif kind == "f":
             o = AntiSymmetricTensor("f", t[:1], t[1:], 1)
+        elif kind == "K":       # bra-ket antisymmetric
+            o = AntiSymmetricTensor("K", t[:h], t[h:], -1)
+        elif kind == "A":       # no bra-ket symmetry
+            o = AntiSymmetricTensor("A", t[:h], t[h:], 0)
         else:
             o = NonSymmetricTensor(kind if kind in ("Y", "Z") else "X", t)
         fs.append(o ** exp)
@@ -42,9 +46,17 @@ def random_term(rng, names):
     i, j, k, a, b, c = names
     spec = []
     for _ in range(rng.randint(1, 3)):
-        kind = rng.choice(["V", "t", "d", "f", "X"])
+        kind = rng.choice(["V", "t", "d", "f", "X", "K", "A"])
         if kind == "V":
             spec.append(["V", rng.sample(names, 4), 1])
+        elif kind in "KA":
+            # diagonal blocks (same spaces above and below) and others
+            if rng.random() < 0.5:
+                spec.append([kind, rng.sample([i, j, k], 2) if rng.random() < 0.5 else rng.sample([a, b, c], 2), 1])
+            elif rng.random() < 0.5:
+                spec.append([kind, rng.sample([i, j, k], 2) + rng.sample([i, j, k], 2), 1])
+            else:
+                spec.append([kind, rng.sample(names, rng.choice([2, 4])), 1])
         elif kind == "t":
             spec.append(["t", rng.sample([a, b, c], 2) + rng.sample([i, j, k], 2), 1])
         elif kind == "d":
@@ -57,7 +69,7 @@ def random_term(rng, names):
 
 
 def model():
-    return Model(orbital_space(1, 1), seed=21, braket={"V": 1, "f": 1})
+    return Model(orbital_space(1, 1), seed=21, braket={"V": 1, "f": 1, "K": -1})
 
 
 # --- Term.symmetry -------------------------------------------------------------
